@@ -70,6 +70,16 @@ theorem iterAt_get (e : Env) (pfx : String) (i : Iter) (h : iterAt e pfx = some 
     · cases h
   · cases h
 
+theorem iterAt_get_i (e : Env) (i : Iter) (h : iterAt e "i" = some i) :
+    e.get "i.off" = some (.int i.off) ∧ e.get "i.addNext" = some (.int i.addNext) ∧
+    e.get "i.cur" = some (.u64 i.cur) ∧ e.get "i.t" = some (.u8 i.t) ∧ e.get "i.lim" = some (.int i.lim) :=
+  iterAt_get e "i" i h
+
+theorem iterAt_get_dst (e : Env) (i : Iter) (h : iterAt e "dst" = some i) :
+    e.get "dst.off" = some (.int i.off) ∧ e.get "dst.addNext" = some (.int i.addNext) ∧
+    e.get "dst.cur" = some (.u64 i.cur) ∧ e.get "dst.t" = some (.u8 i.t) ∧ e.get "dst.lim" = some (.int i.lim) :=
+  iterAt_get e "dst" i h
+
 theorem iterAt_of_gets (e : Env) (pfx : String) (i : Iter)
     (h1 : e.get (pfx ++ ".off") = some (.int i.off)) (h2 : e.get (pfx ++ ".addNext") = some (.int i.addNext))
     (h3 : e.get (pfx ++ ".cur") = some (.u64 i.cur)) (h4 : e.get (pfx ++ ".t") = some (.u8 i.t))
